@@ -441,6 +441,22 @@ func runC15(c *core.Ctx) {
 						kind = "add-unsupported"
 					}
 				default:
+					if len(up) > 16 && r.Chance(1, 8) {
+						// a whole 16-channel block switched off or on (sub-band style plans: several adjacent
+						// blocks end up empty, which is what the channel-mask CFList then has to say)
+						blk, on := r.Intn((len(up)+15)/16), r.Chance(1, 4)
+						for k := blk * 16; k < blk*16+16 && k < len(up); k++ {
+							if on {
+								b.EnableUplinkChannelIndex(k)
+							} else {
+								b.DisableUplinkChannelIndex(k)
+							}
+							up[k].enabled = on
+						}
+						trace = append(trace, fmt.Sprintf("block(%d)=%v", blk, on))
+						kind = "block"
+						break
+					}
 					enable := r.Bool()
 					var i int
 					cls := "valid"
